@@ -19,10 +19,10 @@ Proof. reflexivity. Qed.
 
 (* ... and the model's CopyHandle::new (the prefix of Ops.copy_actions, overwrite with a backup) issues its
    system calls in exactly that order: the extracted steps minus the ones that are not system calls of their
-   own (23 shares the probe's stat, 24 decides, 98 returns) *)
+   own (23 shares the probe's stat, 24 decides, 98 returns) or are not evaluated for an existing destination (26) *)
 Theorem copy_new_steps_model : forall fc src dst n len,
   flat_map step_code_of (fst (copy_actions fc src dst (mkEnv true false (Some n) len false false [] 0))) =
-  filter (fun c => negb ((c =? 23) || (c =? 24) || (c =? 98))) x_copy_new_steps.
+  filter (fun c => negb ((c =? 23) || (c =? 24) || (c =? 98) || (c =? 26))) x_copy_new_steps.
 Proof.
   intros [np nt ow fs] src dst n len. unfold copy_actions. cbn [ce_dst_exists ce_same_file andb].
   destruct ow, np, nt, fs; vm_compute; reflexivity.
